@@ -179,3 +179,12 @@ m("c13-limits-not-forwarded", ["C13"], C, "        fparams[\"limits\"] = _get_op
 m("c13-linreg-rt-not-read", ["C13"], C, "        rt = _get_opt(config[\"linreg\"], \"rt\", RT_DEFAULT)\n        return cls(name, vo=v, vdrop=vd, ig=ig, limits=lim, iis=iis, rt=rt)", "        rt = RT_DEFAULT\n        return cls(name, vo=v, vdrop=vd, ig=ig, limits=lim, iis=iis, rt=rt)")
 m("c13-mandatory-becomes-optional", ["C13"], C, "            \"rs\": {\"typ\": [int, float], \"opt\": False},\n            \"rt\": {\"typ\": [int, float], \"opt\": True, \"def\": RT_DEFAULT},\n        },\n    }\n\n    def __init__(\n        self,\n        name: str,\n        *,\n        rs: float,\n        rt: float = 0.0,\n        limits: dict = LIMITS_DEFAULT,\n    ):",
   "            \"rs\": {\"typ\": [int, float], \"opt\": True, \"def\": 0.0},\n            \"rt\": {\"typ\": [int, float], \"opt\": True, \"def\": RT_DEFAULT},\n        },\n    }\n\n    def __init__(\n        self,\n        name: str,\n        *,\n        rs: float,\n        rt: float = 0.0,\n        limits: dict = LIMITS_DEFAULT,\n    ):")
+
+# ---- C14 -------------------------------------------------------------------------------------
+m("c14-rail-check-skipped-when-name-unchanged", ["C14"], Y, "        elif rail != \"\" and rail != self._g.attrs[\"rails\"][name]:\n", "        elif False:\n")
+m("c14-child-compat-not-rechecked", ["C14"], Y, "            if not self._g[c]._component_type in comp._child_types:\n                raise ValueError(\n                    \"Component type {} does not allow the existing childs!\"", "            if False:\n                raise ValueError(\n                    \"Component type {} does not allow the existing childs!\"")
+m("c14-second-mux-via-change", ["C14"], Y, "        elif comp._component_type == _ComponentTypes.PMUX and self._get_pmux() != -1:", "        elif False:")
+m("c14-add-comp-rail-vs-name-unchecked", ["C14"], Y, "            if (\n                rail in self._g.attrs[\"nodes\"].keys()\n                or rail in self._g.attrs[\"rails\"].values()\n            ):\n                raise ValueError('Rail name \"{}\" is already used!'.format(name))", "            if rail in self._g.attrs[\"rails\"].values():\n                raise ValueError('Rail name \"{}\" is already used!'.format(name))")
+m("c14-source-delete-keeps-children", ["C14"], Y, "            if not del_childs:\n                raise ValueError(\"Source must be deleted with its childs\")\n", "")
+m("c14-del-comp-accepts-rail-names", ["C14", "C15"], Y, "        if name not in self._g.attrs[\"nodes\"]:\n            raise ValueError(\"Component name does not exist!\")\n        eidx = self._get_index(name)", "        eidx = self._get_index(name)\n        if eidx == -1:\n            raise ValueError(\"Component name does not exist!\")")
+m("c14-mux-name-only-checked-for-add", ["C14"], Y, "        if comp._component_type.name == \"PMUX\":\n            for key in self._g.attrs[\"nodes\"]:", "        if comp._component_type.name == \"PMUX\" and isinstance(parent, list):\n            for key in self._g.attrs[\"nodes\"]:")
